@@ -22,7 +22,7 @@ def run(ctx):
                 "upper case, non-ASCII; '%' separately); each is built, written, compared by an independent INI reader, read back and compared "
                 "fact by fact, re-written byte for byte. discinfo: 5 timestamp x 4 description x 4 disc-number classes. "
                 "non-trivial = distinct (tree, concretisation)")
-    cases = [c for c in gen(ctx) if c["obj"]["sec"]["ts"] == "int"]     # float timestamps belong to C17
+    cases = [c for c in gen(ctx) if c["obj"]["sec"]["ts"] in ("int", "neg")]     # float timestamps belong to C17
     nrot = 1 if ctx.quick else 6
     allc = []
     for i, c in enumerate(cases):
